@@ -158,7 +158,11 @@ def run_check(prop, tier, seed, replay=None):
         import_repo()
         if replay:
             return mod.replay(ctx, replay)
+        from . import decoy
+        for _ in range(3):      # other objects with other code tables / string indexes were at work before the check starts
+            decoy.burst()
         mod.run(ctx)
+        ctx.extra.update(decoy.stats())
         return ctx.finish()
     except Exception:
         traceback.print_exc()
